@@ -46,6 +46,13 @@ namespace sim
         p.p_continue = pc[rng.below(3)];
       }
     p.step_cap = 200000;
+    // forced decision points inside the code under test (they exist in the ThreadSanitizer build only, whose
+    // library is compiled with coverage guards): every few hundred to every million control-flow edges, or none
+    if (rng.chance(0.6))
+      {
+        static const uint32_t mean[] = {300, 1000, 3000, 10000, 30000, 100000, 300000, 1000000};
+        p.preempt = mean[rng.below(8)];
+      }
     return p;
   }
 
@@ -133,6 +140,99 @@ namespace sim
       char buf[48];
       std::snprintf(buf, sizeof(buf), "%.17g", v == 0 ? 1.0 : v * f[rng.below(5)]);
       return json.substr(0, t.first) + buf + json.substr(t.first + t.second);
+    }
+  }
+
+  namespace
+  {
+    // the same world with every min/max depth (plain numbers and the values of depth surfaces) scaled: a sibling
+    // with the same features, the same coordinates and the same surface points, but other depths everywhere
+    void scale_depth_values(rapidjson::Value &v, double factor, int depth)
+    {
+      if (depth > 40)
+        return;
+      if (v.IsObject())
+        for (auto &m : v.GetObject())
+          {
+            const std::string k = m.name.GetString();
+            if (k == "min depth" || k == "max depth")
+              {
+                if (m.value.IsNumber())
+                  m.value.SetDouble(m.value.GetDouble() * factor);
+                else if (m.value.IsArray())
+                  for (auto &e : m.value.GetArray())
+                    if (e.IsArray() && e.Size() >= 1 && e[0].IsNumber())
+                      e[0].SetDouble(e[0].GetDouble() * factor);
+              }
+            else
+              scale_depth_values(m.value, factor, depth + 1);
+          }
+      else if (v.IsArray())
+        for (auto &e : v.GetArray())
+          scale_depth_values(e, factor, depth + 1);
+    }
+
+    void collect_sizes(rapidjson::Value &v, std::vector<rapidjson::Value *> &out, int depth)
+    {
+      if (depth > 40)
+        return;
+      if (v.IsObject())
+        for (auto &m : v.GetObject())
+          {
+            const std::string k = m.name.GetString();
+            if (k == "length" || k == "thickness" || k == "min depth" || k == "max depth")
+              {
+                if (m.value.IsNumber())
+                  out.push_back(&m.value);
+                else if (m.value.IsArray())
+                  for (auto &e : m.value.GetArray())
+                    if (e.IsNumber())
+                      out.push_back(&e);
+              }
+            else
+              collect_sizes(m.value, out, depth + 1);
+          }
+      else if (v.IsArray())
+        for (auto &e : v.GetArray())
+          collect_sizes(e, out, depth + 1);
+    }
+
+    // the same slab/fault world with one or two lengths, thicknesses or depth limits changed (coordinates and
+    // angles stay as they are, so the sibling is as valid as the original)
+    std::string perturb_sizes(const std::string &json, Rng &rng)
+    {
+      rapidjson::Document d;
+      d.Parse<rapidjson::kParseCommentsFlag | rapidjson::kParseNanAndInfFlag | rapidjson::kParseIterativeFlag>(json.c_str(), json.size());
+      if (d.HasParseError() || !d.IsObject())
+        return json;
+      std::vector<rapidjson::Value *> nums;
+      collect_sizes(d, nums, 0);
+      if (nums.empty())
+        return json;
+      static const double f[] = {0.5, 0.75, 1.25, 1.5, 2.0};
+      const int n = static_cast<int>(rng.range(1, 2));
+      for (int i = 0; i < n; ++i)
+        {
+          rapidjson::Value *v = nums[rng.below(nums.size())];
+          v->SetDouble(v->GetDouble() * f[rng.below(5)]);
+        }
+      rapidjson::StringBuffer sb;
+      rapidjson::Writer<rapidjson::StringBuffer, rapidjson::UTF8<>, rapidjson::UTF8<>, rapidjson::CrtAllocator, rapidjson::kWriteNanAndInfFlag> wr(sb);
+      d.Accept(wr);
+      return sb.GetString();
+    }
+
+    std::string scale_depths(const std::string &json, double factor)
+    {
+      rapidjson::Document d;
+      d.Parse<rapidjson::kParseCommentsFlag | rapidjson::kParseNanAndInfFlag | rapidjson::kParseIterativeFlag>(json.c_str(), json.size());
+      if (d.HasParseError() || !d.IsObject())
+        return json;
+      scale_depth_values(d, factor, 0);
+      rapidjson::StringBuffer sb;
+      rapidjson::Writer<rapidjson::StringBuffer, rapidjson::UTF8<>, rapidjson::UTF8<>, rapidjson::CrtAllocator, rapidjson::kWriteNanAndInfFlag> wr(sb);
+      d.Accept(wr);
+      return sb.GetString();
     }
   }
 
@@ -253,6 +353,7 @@ namespace sim
         // built in its place (very likely at the same addresses) and is asked the very same question first. State
         // that outlives a world - a memo keyed by object address, a static cache - answers for the dead world.
         s.generator += "+reincarnation";
+        s.alloc_recycle = rng.chance(0.6) ? 1 : 0; // freed blocks go straight to the next request of their size
         WorldInfo a = infos[0], b = infos[0];
         for (int tries = 0; tries < 6; ++tries)
           {
@@ -601,6 +702,59 @@ namespace sim
         s.ops.push_back(a);
         s.ops.push_back(b);
       }
+    if (rng.chance(0.35))
+      {
+        // further lives: both worlds are destroyed and built again into the same two slots, alternately from a
+        // sibling file (same features, coordinates and surface points, other depths / sizes) and from the
+        // original, and each new pair is first asked the point its predecessors were asked last. What a shortcut
+        // remembers must die with its world, wherever the allocator puts the next one.
+        s.generator += "+rebuilt";
+        s.alloc_recycle = rng.chance(0.7) ? 1 : 0; // the simulated allocator hands freed blocks straight back
+        const std::string path2 = "/simfs/c07b.wb";
+        s.files[path2] = slabs ? perturb_sizes(g.json, rng) : scale_depths(g.json, rng.real(0.4, 0.9));
+        // the points asked in every further life: the most recent ones of the first life, most recent first
+        std::vector<std::pair<Op, Op>> again;
+        const int n_again = static_cast<int>(rng.range(2, 12));
+        for (int k = 0; k < n_again && 2 * (k + 1) + 2 <= static_cast<int>(s.ops.size()); ++k)
+          {
+            const Op &a = s.ops[s.ops.size() - 2 * (k + 1)], &b = s.ops[s.ops.size() - 2 * (k + 1) + 1];
+            if (a.op != "q3" || b.op != "q3")
+              break;
+            again.emplace_back(a, b);
+          }
+        const int lives = static_cast<int>(rng.range(1, 8));
+        for (int life = 1; life <= lives; ++life)
+          {
+            // which of the old worlds' memory a new world is built into depends on the order of these four operations
+            Op d;
+            d.op = "destroy";
+            const int first_gone = static_cast<int>(rng.below(2));
+            d.h = first_gone;
+            s.ops.push_back(d);
+            d.h = 1 - first_gone;
+            s.ops.push_back(d);
+            ca.file = cb.file = (life % 2 == 1) ? path2 : path;
+            if (rng.chance(0.5))
+              {
+                s.ops.push_back(ca);
+                s.ops.push_back(cb);
+              }
+            else
+              {
+                s.ops.push_back(cb);
+                s.ops.push_back(ca);
+              }
+            for (size_t k = 0; k < again.size(); ++k)
+              {
+                Op a = again[k].first, b = again[k].second;
+                a.eq = b.eq = "r" + std::to_string(life) + "_" + std::to_string(k);
+                s.ops.push_back(a);
+                s.ops.push_back(b);
+              }
+            // the next life starts with the point this one was asked last
+            std::reverse(again.begin(), again.end());
+          }
+      }
     return true;
   }
 
@@ -695,6 +849,32 @@ namespace sim
               }
             natural_to_query(w, x, y, depth, q.p);
             q.d = depth;
+            if (!w.spherical && w.has_cs && rng.chance(0.25))
+              {
+                // the same kind of question through the 2d interface: the point of the cross section nearest to (x,y),
+                // kept only when that point is clearly inside or clearly outside the box
+                const double ax = w.cs[0][0], ay = w.cs[0][1];
+                double dx = w.cs[1][0] - ax, dy = w.cs[1][1] - ay;
+                const double len = std::sqrt(dx * dx + dy * dy);
+                if (len > 0)
+                  {
+                    dx /= len;
+                    dy /= len;
+                    const double sx = (x - ax) * dx + (y - ay) * dy;
+                    const double lx = ax + sx * dx, ly = ay + sx * dy;
+                    const bool depth_in = depth > m.min_depth && depth < m.max_depth;
+                    const bool xy_in = lx > m.x0 + 0.02 * ex && lx < m.x1 - 0.02 * ex && ly > m.y0 + 0.02 * ey && ly < m.y1 - 0.02 * ey;
+                    const bool xy_out = lx < m.x0 - 0.02 * ex || lx > m.x1 + 0.02 * ex || ly < m.y0 - 0.02 * ey || ly > m.y1 + 0.02 * ey;
+                    if (xy_in || xy_out)
+                      {
+                        q.op = "q2";
+                        q.p[0] = sx;
+                        q.p[1] = -depth;
+                        q.p[2] = 0;
+                        inside = xy_in && depth_in;
+                      }
+                  }
+              }
           }
         else
           {
@@ -723,7 +903,7 @@ namespace sim
                 static const unsigned ks[] = {0, 1, 2, 3, 5, 10, 50};
                 const unsigned kk = ks[rng.below(rng.chance(0.9) ? 6 : 7)];
                 unsigned comp = static_cast<unsigned>(rng.below(3));
-                if (predicted && m.grains_present && rng.chance(0.8))
+                if (m.grains_present && rng.chance(0.8))
                   comp = m.grain_comps[rng.below(m.grain_comps.size())];
                 q.props.push_back(Prop{{3, comp, kk}});
                 // orientation validity is only demanded where the generator knows that every grains model
@@ -731,6 +911,18 @@ namespace sim
                 // with user-supplied matrices that are not rotations)
                 q.gc.on = (s.generator != "c15/corpus");
                 q.gc.rot = true;
+                if (!predicted && s.generator == "c15/line" && m.grains_present && m.sole_grains_model)
+                  {
+                    // a slab or fault with the only grains model of the file: where grains are reported at all
+                    // they come from that model, so their sizes follow the settings of the composition asked for
+                    for (size_t ci = 0; ci < m.grain_comps.size(); ++ci)
+                      if (m.grain_comps[ci] == comp)
+                        {
+                          q.gc.sum1 = m.normalize[ci] && kk > 0;
+                          q.gc.fixed = !m.normalize[ci] && m.grain_sizes[ci] >= 0;
+                          q.gc.sizes = {m.grain_sizes[ci]};
+                        }
+                  }
                 if (predicted && m.grains_present)
                   {
                     for (size_t ci = 0; ci < m.grain_comps.size(); ++ci)
@@ -940,13 +1132,18 @@ namespace sim
     const auto &all = corpus_buildable(true, false);
     const int npairs = static_cast<int>(rng.range(1, 2));
     int eqn = 0;
-    static const unsigned long seeds[] = {0ul, 1ul, 2ul, 1000ul, 2147483648ul, 4294967295ul, 4294967296ul, 4294967301ul};
+    static const unsigned long seeds[] = {0ul, 1ul, 2ul, 1000ul, 2147483648ul, 4294967295ul, 4294967296ul, 4294967301ul,
+                                          9223372036854775807ul, 9223372036854775808ul, 9223372036854775813ul, 18446744073709551615ul, 18446744069414584325ul
+                                         };
     struct Pair
     {
       WorldInfo w;
       int hn, hw;
       std::string kind;
       bool alive;
+      Slot slot;      // points asked before (asked again now and then)
+      Op last;        // the previous query of this pair
+      bool has_last = false;
     };
     std::vector<Pair> pairs;
     for (int ip = 0; ip < npairs; ++ip)
@@ -974,7 +1171,7 @@ namespace sim
       n.kind = "native";
       n.h = p.hn;
       n.file = p.w.name;
-      n.seed = rng.chance(0.7) ? seeds[rng.below(8)] : static_cast<unsigned long>(rng.next() >> rng.below(40));
+      n.seed = rng.chance(0.7) ? seeds[rng.below(13)] : static_cast<unsigned long>(rng.next() >> rng.below(40));
       const double sel = rng.real();
       if (sel < 0.45)
         {
@@ -1089,15 +1286,36 @@ namespace sim
             continue;
           }
         Op q;
-        Slot dummy;
         if (sel < 0.12 && p.kind == "c")
           {
             q.op = "size";
             q.props = random_props(p.w, rng, 8, true);
           }
+        else if (sel < 0.30 && p.has_last)
+          {
+            // the question just asked once more, or its counterpart in the other dimension at the same numbers:
+            // (x,z) in the cross section and (x,0,z) in space are different places unless the section is the x axis
+            q = p.last;
+            q.eq.clear();
+            if (rng.chance(0.5))
+              {
+                if (q.op == "q2")
+                  {
+                    q.op = "q3";
+                    q.p[2] = q.p[1];
+                    q.p[1] = 0;
+                  }
+                else if (p.w.has_cs)
+                  {
+                    q.op = "q2";
+                    q.p[1] = q.p[2];
+                    q.p[2] = 0;
+                  }
+              }
+          }
         else
           {
-            fill_query(q, p.w, dummy, rng, true, true);
+            fill_query(q, p.w, p.slot, rng, true, true);
             if (p.kind == "cpp" && q.via != "temperature" && q.via != "temperature_g" && q.via != "composition")
               {
                 q.via = rng.chance(0.5) ? "temperature" : "composition";
@@ -1110,6 +1328,11 @@ namespace sim
           }
         q.eq = "q" + std::to_string(eqn++);
         q.h = p.hn;
+        if (q.op != "size")
+          {
+            p.last = q;
+            p.has_last = true;
+          }
         Op w = q;
         w.h = p.hw;
         if (rng.chance(0.5))
@@ -1130,6 +1353,12 @@ namespace sim
   bool generate(const std::string &property, uint64_t seed, uint64_t run, const std::string &tier, Scenario &out)
   {
     out = Scenario();
+    if (tier.size() > 5 && tier.compare(tier.size() - 5, 5, "+cold") == 0)
+      {
+        // cold-start scenarios (executed as the first thing a fresh process does): only C12 has them
+        const std::string base_tier = tier.substr(0, tier.size() - 5);
+        return property == "C12" && gen_c12_cold(seed, run, base_tier, out);
+      }
     if (property == "C01")
       return gen_c01(seed, run, tier, out);
     if (property == "C07")
